@@ -1,7 +1,7 @@
 (* C01 proofs, part 1: the lock-step reader and the declarative form of the loader loop. *)
 From Coq Require Import ZArith List Bool Lia Arith.
 Import ListNotations.
-From SCMO Require Import Lib.Val Model.C01.
+From SCMO Require Import Lib.Val Lib.C01Shape Model.C01.
 Open Scope Z_scope.
 
 (* ------------------------------------------------------------------ small list facts *)
@@ -22,10 +22,7 @@ Proof.
 Qed.
 
 (* ------------------------------------------------------------------ FastqIterator: the stop rule *)
-Definition record_at (k : nat) (ls : list str) : read := read_record (skipn (4 * k) ls).
-Definition row (k : nat) (files : list (list str)) : pair := map (record_at k) files.
-Definition exhausted (k : nat) (files : list (list str)) : bool := existsb empty_header (row k files).
-
+(* record_at / row / exhausted: Model/C01.v *)
 Lemma row_0 files : row 0 files = map read_record files.
 Proof. unfold row, record_at. cbn [Nat.mul skipn]. reflexivity. Qed.
 
@@ -80,12 +77,33 @@ Proof.
   - destruct (H1 n H) as [_ H3]. rewrite H3 in Hn. discriminate.
 Qed.
 
+(* ------------------------------------------------------------------ well-formed shapes *)
+Lemma sink_eqb_eq a b : sink_eqb a b = true -> a = b.
+Proof. destruct a, b; cbn; congruence. Qed.
+
+Lemma wf_shape_inv sh : wf_shape sh = true -> exists g b, sh = good_shape g b.
+Proof.
+  unfold wf_shape. intros H.
+  repeat (apply andb_prop in H; let H' := fresh "W" in destruct H as [H H']).
+  destruct sh as [[s1 g1 c1] [s2 g2 c2] [s3 g3 c3] e i t]. cbn in *.
+  apply sink_eqb_eq in H. apply sink_eqb_eq in W6. apply sink_eqb_eq in W3.
+  apply negb_true_iff in W4. apply negb_true_iff in W1. apply negb_true_iff in W0. apply eqb_prop in W. subst.
+  exists g1, t. reflexivity.
+Qed.
+
+Lemma good_shape_wf g b : wf_shape (good_shape g b) = true.
+Proof. destruct g, b; reflexivity. Qed.
+
+Lemma wf_shapes sh : wf_shape sh = true <-> exists g b, sh = good_shape g b.
+Proof. split; [apply wf_shape_inv|intros (g & b & ->); apply good_shape_wf]. Qed.
+
 (* ------------------------------------------------------------------ the loader, declaratively *)
 Section Loader.
+  Variable sh : shape.
   Variable strats : list strategy.
   Variable rejhdr : read -> str -> hout.
   Variable cfg : config.
-  Hypothesis repaired : c_legacy cfg = false.
+  Hypothesis wf : wf_shape sh = true.
 
   (* what one (pair, strategy) step writes *)
   Definition step_events (p : nat) (reads : pair) (j : nat) (f : strategy) : list event :=
@@ -133,50 +151,59 @@ Section Loader.
     | f :: ss' => yields_from reads (S j) ss' (if is_accept (f reads) then bump j ys else ys)
     end.
 
+  (* the step function the model derives from a well-formed shape is the declarative step *)
+  Lemma step_spec g b p j reads f tr ys :
+    match step (good_shape g b) rejhdr cfg p j reads f tr ys with
+    | (tr', ys', true) => step_crash reads f = true
+    | (tr', ys', false) => step_crash reads f = false
+                           /\ tr' = tr ++ step_events p reads j f
+                           /\ ys' = if is_accept (f reads) then bump j ys else ys
+    end.
+  Proof.
+    unfold step, step_events, step_crash, is_accept, generic_arm, reject_arm, counted.
+    cbn [good_shape sh_accept sh_reject sh_generic sh_count_early arm_sink arm_guarded arm_counts
+         write_recs write_texts present andb negb].
+    destruct (f reads) as [recs|reason|kind].
+    - destruct (ok_prefix (touched cfg recs)) as [pre [kind|]]; cbn [snd].
+      + destruct (c_rejects cfg); cbn; rewrite <- ?app_assoc, ?app_nil_r; auto.
+      + auto.
+    - destruct (c_rejects cfg); cbn [andb negb].
+      + destruct (reject_texts rejhdr reads reason) as [ts|]; auto.
+      + rewrite app_nil_r. auto.
+    - destruct (c_rejects cfg); cbn; rewrite ?app_nil_r; auto.
+  Qed.
+
   Lemma strat_loop_spec p reads : forall ss j tr ys,
-    match strat_loop rejhdr cfg p reads j ss tr ys with
+    match strat_loop sh rejhdr cfg p reads j ss tr ys with
     | (tr', ys', true) => existsb (step_crash reads) ss = true
     | (tr', ys', false) => existsb (step_crash reads) ss = false
                            /\ tr' = tr ++ steps_from p reads j ss /\ ys' = yields_from reads j ss ys
     end.
   Proof.
+    destruct (wf_shape_inv sh wf) as (g & b & ->).
     induction ss as [|f ss IH]; intros j tr ys.
     - cbn. now rewrite app_nil_r.
-    - cbn [strat_loop steps_from yields_from existsb]. unfold step_crash at 1 3, step_events.
-      destruct (f reads) as [recs|reason|kind] eqn:Hf; cbn [is_accept orb].
-      + destruct (ok_prefix (touched cfg recs)) as [pre [kind|]]; cbn [snd].
-        * rewrite repaired.
-          specialize (IH (S j) (tr ++ write_target cfg p j pre ++
-                                (if c_rejects cfg then write_reject cfg p j (generic_texts reads kind) else [])) ys).
-          destruct (strat_loop _ _ _ _ _ _ _ _) as [[tr' ys'] [|]]; [assumption|].
-          destruct IH as (H1 & H2 & H3). rewrite <- app_assoc in H2. auto.
-        * specialize (IH (S j) (tr ++ write_target cfg p j recs) (bump j ys)).
-          destruct (strat_loop _ _ _ _ _ _ _ _) as [[tr' ys'] [|]]; [assumption|].
-          destruct IH as (H1 & H2 & H3). rewrite <- app_assoc in H2. auto.
-      + destruct (c_rejects cfg) eqn:Hr; cbn [andb].
-        * destruct (reject_texts rejhdr reads reason) as [ts|] eqn:Hts.
-          -- specialize (IH (S j) (tr ++ write_reject cfg p j ts) ys).
-             destruct (strat_loop _ _ _ _ _ _ _ _) as [[tr' ys'] [|]]; [assumption|].
-             destruct IH as (H1 & H2 & H3). rewrite <- app_assoc in H2. auto.
-          -- reflexivity.
-        * specialize (IH (S j) tr ys).
-          destruct (strat_loop _ _ _ _ _ _ _ _) as [[tr' ys'] [|]]; [assumption|].
-          destruct IH as (H1 & H2 & H3). auto.
-      + rewrite repaired.
-        destruct (c_rejects cfg) eqn:Hr.
-        * specialize (IH (S j) (tr ++ write_reject cfg p j (generic_texts reads kind)) ys).
-          destruct (strat_loop _ _ _ _ _ _ _ _) as [[tr' ys'] [|]]; [assumption|].
-          destruct IH as (H1 & H2 & H3). rewrite <- app_assoc in H2. auto.
-        * specialize (IH (S j) tr ys).
-          destruct (strat_loop _ _ _ _ _ _ _ _) as [[tr' ys'] [|]]; [assumption|].
-          destruct IH as (H1 & H2 & H3). auto.
+    - cbn [strat_loop steps_from yields_from existsb].
+      pose proof (step_spec g b p j reads f tr ys) as Hs.
+      destruct (step (good_shape g b) rejhdr cfg p j reads f tr ys) as [[tr1 ys1] [|]].
+      + now rewrite Hs.
+      + destruct Hs as (Hc & -> & ->). rewrite Hc. cbn [orb].
+        specialize (IH (S j) (tr ++ step_events p reads j f) (if is_accept (f reads) then bump j ys else ys)).
+        destruct (strat_loop _ _ _ _ _ _ _ _ _) as [[tr' ys'] [|]]; [assumption|].
+        destruct IH as (H1 & H2 & H3). rewrite <- app_assoc in H2. auto.
   Qed.
 
-  (* the pairs the loop body runs on: up to and including the first one at which the maxReadPairs test fires *)
-  Fixpoint consumed_from (p : nat) (pairs : list pair) : list pair :=
+  (* the pairs the strategy loop runs on.  Test after the strategy loop: up to and including the first pair at which
+     the maxReadPairs test fires; test before it: the pairs before the first one at which it fires.
+     [proc] = processedReadPairs before the iteration *)
+  Fixpoint consumed_from (proc : Z) (pairs : list pair) : list pair :=
     match pairs with
     | [] => []
-    | r :: rest => if stop_after cfg (Z.of_nat p + 1) then [r] else r :: consumed_from (S p) rest
+    | r :: rest =>
+        let proc1 := if sh_incr_before_test sh then proc + 1 else proc in
+        if sh_strat_before_test sh
+        then r :: (if stop_after cfg proc1 then [] else consumed_from (proc + 1) rest)
+        else if stop_after cfg proc1 then [] else r :: consumed_from (proc + 1) rest
     end.
 
   Fixpoint pairs_from (p : nat) (pairs : list pair) : list event :=
@@ -191,54 +218,73 @@ Section Loader.
   Definition pair_crash (reads : pair) : bool := existsb (step_crash reads) strats.
 
   Lemma pair_loop_spec : forall pairs p tr ys proc,
-    let res := pair_loop strats rejhdr cfg p pairs tr ys proc in
-    if res_crashed res then existsb pair_crash (consumed_from p pairs) = true
-    else existsb pair_crash (consumed_from p pairs) = false
-         /\ res_trace res = tr ++ pairs_from p (consumed_from p pairs)
-         /\ res_yields res = yields_pairs (consumed_from p pairs) ys
-         /\ res_processed res = match pairs with [] => proc | _ => Z.of_nat p + Z.of_nat (length (consumed_from p pairs)) end.
+    let res := pair_loop sh strats rejhdr cfg p pairs tr ys proc in
+    if res_crashed res then existsb pair_crash (consumed_from proc pairs) = true
+    else existsb pair_crash (consumed_from proc pairs) = false
+         /\ res_trace res = tr ++ pairs_from p (consumed_from proc pairs)
+         /\ res_yields res = yields_pairs (consumed_from proc pairs) ys
+         /\ res_processed res = proc + Z.of_nat (length (consumed_from proc pairs)).
   Proof.
+    pose proof strat_loop_spec as SL.
+    destruct (wf_shape_inv sh wf) as (g & b & E).
+    assert (Ei : sh_incr_before_test sh = b) by (rewrite E; reflexivity).
+    assert (Et : sh_strat_before_test sh = b) by (rewrite E; reflexivity).
     induction pairs as [|r rest IH]; intros p tr ys proc.
-    - cbn. now rewrite app_nil_r.
-    - cbn [pair_loop consumed_from].
-      pose proof (strat_loop_spec p r strats 0%nat tr ys) as Hs.
-      destruct (strat_loop rejhdr cfg p r 0 strats tr ys) as [[tr' ys'] [|]].
-      + cbn [res_crashed]. fold (pair_crash r) in Hs.
-        destruct (stop_after cfg (Z.of_nat p + 1)); cbn [existsb]; rewrite Hs; reflexivity.
-      + destruct Hs as (Hc & Htr & Hys). fold (pair_crash r) in Hc.
-        destruct (stop_after cfg (Z.of_nat p + 1)) eqn:Hstop.
-        * cbn [res_crashed res_trace res_yields res_processed existsb pairs_from yields_pairs fold_left length].
-          rewrite Hc, app_nil_r. cbn [orb]. repeat split; auto; lia.
-        * specialize (IH (S p) tr' ys' (Z.of_nat p + 1)). cbv zeta in IH.
-          destruct (res_crashed (pair_loop strats rejhdr cfg (S p) rest tr' ys' (Z.of_nat p + 1))).
-          -- cbn [existsb]. rewrite IH. apply orb_true_r.
-          -- destruct IH as (H1 & H2 & H3 & H4).
-             cbn [existsb pairs_from yields_pairs fold_left length]. rewrite Hc, H1. cbn [orb].
-             repeat split; auto.
-             ++ rewrite H2, Htr, <- app_assoc. reflexivity.
-             ++ rewrite H3, Hys. reflexivity.
-             ++ rewrite H4. destruct rest as [|r2 rest2]; [cbn [consumed_from length]; lia|]. lia.
+    - cbn. rewrite app_nil_r. repeat split; auto; lia.
+    - cbn [pair_loop consumed_from]. rewrite Ei, Et.
+      pose proof (SL p r strats 0%nat tr ys) as Hs. fold (pair_crash r) in Hs.
+      destruct b.
+      + (* increment, strategy loop, test *)
+        destruct (strat_loop sh rejhdr cfg p r 0 strats tr ys) as [[tr' ys'] [|]].
+        * cbn [res_crashed existsb]. rewrite Hs. reflexivity.
+        * destruct Hs as (Hc & Htr & Hys).
+          destruct (stop_after cfg (proc + 1)) eqn:Hstop.
+          -- cbn [res_crashed res_trace res_yields res_processed existsb pairs_from yields_pairs fold_left length].
+             rewrite Hc, app_nil_r. cbn [orb]. repeat split; auto; lia.
+          -- specialize (IH (S p) tr' ys' (proc + 1)). cbv zeta in IH.
+             destruct (res_crashed (pair_loop sh strats rejhdr cfg (S p) rest tr' ys' (proc + 1))).
+             ++ cbn [existsb]. rewrite IH. apply orb_true_r.
+             ++ destruct IH as (H1 & H2 & H3 & H4).
+                cbn [existsb pairs_from yields_pairs fold_left length]. rewrite Hc, H1. cbn [orb].
+                repeat split; auto.
+                ** rewrite H2, Htr, <- app_assoc. reflexivity.
+                ** rewrite H3, Hys. reflexivity.
+                ** rewrite H4. lia.
+      + (* test, then increment and strategy loop *)
+        destruct (stop_after cfg proc) eqn:Hstop.
+        * cbn. rewrite app_nil_r. repeat split; auto; lia.
+        * destruct (strat_loop sh rejhdr cfg p r 0 strats tr ys) as [[tr' ys'] [|]].
+          -- cbn [res_crashed existsb]. rewrite Hs. reflexivity.
+          -- destruct Hs as (Hc & Htr & Hys).
+             specialize (IH (S p) tr' ys' (proc + 1)). cbv zeta in IH.
+             destruct (res_crashed (pair_loop sh strats rejhdr cfg (S p) rest tr' ys' (proc + 1))).
+             ++ cbn [existsb]. rewrite IH. apply orb_true_r.
+             ++ destruct IH as (H1 & H2 & H3 & H4).
+                cbn [existsb pairs_from yields_pairs fold_left length]. rewrite Hc, H1. cbn [orb].
+                repeat split; auto.
+                ** rewrite H2, Htr, <- app_assoc. reflexivity.
+                ** rewrite H3, Hys. reflexivity.
+                ** rewrite H4. lia.
   Qed.
 
   Definition consumed (pairs : list pair) : list pair := consumed_from 0 pairs.
 
   (* the whole run in closed form, for every run that returns *)
   Lemma loader_decl pairs :
-    res_crashed (loader strats rejhdr cfg pairs) = false ->
+    res_crashed (loader sh strats rejhdr cfg pairs) = false ->
     existsb pair_crash (consumed pairs) = false
-    /\ res_trace (loader strats rejhdr cfg pairs) = pairs_from 0 (consumed pairs)
-    /\ res_yields (loader strats rejhdr cfg pairs) = yields_pairs (consumed pairs) (repeat 0 (length strats))
-    /\ res_processed (loader strats rejhdr cfg pairs) = Z.of_nat (length (consumed pairs)).
+    /\ res_trace (loader sh strats rejhdr cfg pairs) = pairs_from 0 (consumed pairs)
+    /\ res_yields (loader sh strats rejhdr cfg pairs) = yields_pairs (consumed pairs) (repeat 0 (length strats))
+    /\ res_processed (loader sh strats rejhdr cfg pairs) = Z.of_nat (length (consumed pairs)).
   Proof.
     intros Hc. unfold loader in *.
     pose proof (pair_loop_spec pairs 0%nat [] (repeat 0 (length strats)) 0) as H. cbv zeta in H.
     rewrite Hc in H. destruct H as (H1 & H2 & H3 & H4). unfold consumed.
     repeat split; auto.
-    rewrite H4. destruct pairs; cbn [consumed_from length]; lia.
   Qed.
 
   Lemma loader_crash_iff pairs :
-    res_crashed (loader strats rejhdr cfg pairs) = existsb pair_crash (consumed pairs).
+    res_crashed (loader sh strats rejhdr cfg pairs) = existsb pair_crash (consumed pairs).
   Proof.
     unfold loader, consumed.
     pose proof (pair_loop_spec pairs 0%nat [] (repeat 0 (length strats)) 0) as H. cbv zeta in H.
@@ -246,42 +292,57 @@ Section Loader.
   Qed.
 
   (* ---------------- which pairs are consumed: the maxReadPairs arithmetic *)
-  Lemma consumed_from_prefix : forall pairs p, exists k, consumed_from p pairs = firstn k pairs.
+  Lemma consumed_from_prefix : forall pairs proc, exists k, consumed_from proc pairs = firstn k pairs.
   Proof.
-    induction pairs as [|r rest IH]; intros p; [exists 0%nat; reflexivity|].
-    cbn [consumed_from]. destruct (stop_after cfg (Z.of_nat p + 1)).
-    - exists 1%nat. reflexivity.
-    - destruct (IH (S p)) as [k Hk]. exists (S k). cbn [firstn]. now rewrite Hk.
+    induction pairs as [|r rest IH]; intros proc; [exists 0%nat; reflexivity|].
+    cbn [consumed_from]. destruct (IH (proc + 1)) as [k Hk].
+    destruct (sh_strat_before_test sh).
+    - destruct (stop_after cfg _).
+      + exists 1%nat. reflexivity.
+      + exists (S k). cbn [firstn]. now rewrite Hk.
+    - destruct (stop_after cfg _).
+      + exists 0%nat. reflexivity.
+      + exists (S k). cbn [firstn]. now rewrite Hk.
   Qed.
 
   Lemma consumed_from_length_none : c_max cfg = None ->
-    forall pairs p, consumed_from p pairs = pairs.
+    forall pairs proc, consumed_from proc pairs = pairs.
   Proof.
-    intros Hm. induction pairs as [|r rest IH]; intros p; [reflexivity|].
-    cbn [consumed_from]. unfold stop_after. rewrite Hm. now rewrite IH.
+    intros Hm. induction pairs as [|r rest IH]; intros proc; [reflexivity|].
+    cbn [consumed_from]. unfold stop_after. rewrite Hm. rewrite IH. now destruct (sh_strat_before_test sh).
   Qed.
 
+  (* the least number of pairs a non-empty library gives to the strategy loop: 1 when the test stands after it *)
+  Definition min_consumed : Z := if sh_strat_before_test sh then 1 else 0.
+
   Lemma consumed_from_length_some m : c_max cfg = Some m ->
-    forall pairs p, Z.of_nat (length (consumed_from p pairs)) =
+    forall pairs proc, Z.of_nat (length (consumed_from proc pairs)) =
                     match pairs with
                     | [] => 0
-                    | _ => Z.min (Z.of_nat (length pairs)) (Z.max 1 (m - Z.of_nat p))
+                    | _ => Z.min (Z.of_nat (length pairs)) (Z.max min_consumed (m - proc))
                     end.
   Proof.
-    intros Hm. induction pairs as [|r rest IH]; intros p; [reflexivity|].
-    cbn [consumed_from]. unfold stop_after. rewrite Hm.
-    destruct (m <=? Z.of_nat p + 1) eqn:Hle.
-    - cbn [length]. lia.
-    - cbn [length]. rewrite Nat2Z.inj_succ, IH. destruct rest as [|r2 rest2]; cbn [length]; lia.
+    intros Hm. unfold min_consumed.
+    destruct (wf_shape_inv sh wf) as (g & b & E).
+    assert (Ei : sh_incr_before_test sh = b) by (rewrite E; reflexivity).
+    assert (Et : sh_strat_before_test sh = b) by (rewrite E; reflexivity).
+    induction pairs as [|r rest IH]; intros proc; [reflexivity|].
+    cbn [consumed_from]. rewrite Ei, Et in *. unfold stop_after. rewrite Hm. destruct b.
+    - destruct (m <=? proc + 1) eqn:Hle.
+      + cbn [length]. lia.
+      + cbn [length]. rewrite Nat2Z.inj_succ, IH. destruct rest as [|r2 rest2]; cbn [length]; lia.
+    - destruct (m <=? proc) eqn:Hle.
+      + cbn [length]. lia.
+      + cbn [length]. rewrite Nat2Z.inj_succ, IH. destruct rest as [|r2 rest2]; cbn [length]; lia.
   Qed.
 
   Lemma processed_formula pairs :
-    res_crashed (loader strats rejhdr cfg pairs) = false ->
-    res_processed (loader strats rejhdr cfg pairs) =
+    res_crashed (loader sh strats rejhdr cfg pairs) = false ->
+    res_processed (loader sh strats rejhdr cfg pairs) =
       match pairs, c_max cfg with
       | [], _ => 0
       | _, None => Z.of_nat (length pairs)
-      | _, Some m => Z.min (Z.of_nat (length pairs)) (Z.max 1 m)
+      | _, Some m => Z.min (Z.of_nat (length pairs)) (Z.max min_consumed m)
       end.
   Proof.
     intros Hc. destruct (loader_decl pairs Hc) as (_ & _ & _ & ->). unfold consumed.
